@@ -97,7 +97,7 @@ def usable(sc, scans=False):
                 has_scan = True
     if has_scan != scans:
         return False
-    if scans and len(sc.init) > 12:
+    if scans and len(sc.init) > 60:
         return False
     return all(k < (1 << 24) for k in sc.init)
 
@@ -193,7 +193,7 @@ def _trap_work(arg):
 
 def trap_analysis(tier, scans=False, max_version=12):
     cat = scenarios.scan_scenarios(tier) if scans else scenarios.point_scenarios(tier)
-    scs = [s for s in cat if usable(s, scans) and len(s.init) <= (6 if scans else 17)
+    scs = [s for s in cat if usable(s, scans) and len(s.init) <= (60 if scans else 17)
            and len(s.progs) == 2 and sum(len(p) for p in s.progs) <= (3 if tier == "quick" else 4)]
     if scans and tier == "quick":
         # the largest graphs are left to the thorough tier
@@ -337,6 +337,9 @@ SIG_SCENARIOS = [
     ("sig_scan_leaf", [5], ["sf", "sr", "ff5", "ff6", "ff4", "fr4"]),
     ("sig_scan_empty", [], ["sf", "sr", "ff5"]),
     ("sig_scan_three", [1, 2, 3, 257, 258, 513], ["sf", "fr300", "ff4", "R3-513", "R513-2"]),
+    # the two node classes that are indexed by the key byte itself
+    ("sig_scan_i48", [3 * i for i in range(1, 21)], ["sf", "sr", "ff31h2", "fr31h2", "ff100", "R10-40", "R40-10h3"]),
+    ("sig_scan_i256", [3 * i for i in range(1, 53)], ["sfh5", "srh5", "ff100h2", "fr100h2", "ff200"]),
 ]
 
 
@@ -629,7 +632,7 @@ def behaviour_replay(exe, d, tier, max_paths=1200, scans=False):
     """-> (coverage dict, [event files to be judged by OlcTrace])"""
     cat = {s.name: s for s in (scenarios.scan_scenarios("thorough") if scans else scenarios.point_scenarios("thorough"))}
     names = REPLAY_SCENARIOS.get("only") or [
-        s.name for s in cat.values() if usable(s, scans) and len(s.init) <= (6 if scans else 17)
+        s.name for s in cat.values() if usable(s, scans) and len(s.init) <= (60 if scans else 17)
         and (len(s.progs) == 2 and sum(len(p) for p in s.progs) <= (3 if tier == "quick" else 4))]
     if scans and tier == "quick" and "only" not in REPLAY_SCENARIOS:
         # the largest graphs (collapse under every scan kind) are left to the thorough tier except for scan()
